@@ -569,6 +569,8 @@ MUTANTS += [
          old="                    u=np.zeros((i, self.nu)),", new="                    u=np.zeros((len(self.load_steps), self.nu)),", expect="C20.R8"),
 ]
 NEUTRAL = [
+    dict(id="c20-n-r9", what="time_grid written with a named tolerance", file="cardillo/solver/_base.py",
+         old="    n_steps = max(1, int(np.ceil((t1 - t0) / dt - 1e-9)))", new="    quotient = (t1 - t0) / dt\n    n_steps = max(1, int(np.ceil(quotient - 1.0e-9)))"),
     dict(id="c20-n1", canary=True, what="Rattle: step count from the span (t1 - t0) / dt", file=RT,
          old="        pbar = tqdm(time_grid(self.t0, self.t1, self.dt)[:-1])", new="        n_steps = len(time_grid(self.t0, self.t1, self.dt)) - 1\n        pbar = tqdm(range(n_steps))"),
 ]
